@@ -338,3 +338,12 @@ Qed.
 Lemma get_reachable_fuel : forall d fuel, (length (d_edges d) + 2 <= fuel)%nat ->
   gr_loop fuel (d_edges d) [d_required d] [] <> OutOfFuel.
 Proof. intros d fuel H. apply loop_fuel. cbn. lia. Qed.
+
+Lemma get_reachable_canonical : forall (d : deps) (l l' : list N),
+  get_reachable d = Ok l -> strict_sorted l' ->
+  (forall x, In x l' <-> reach (dep_valid d) (dep_edge d) (dep_required d) x) -> l' = l.
+Proof.
+  intros d l l' Hl Hs' Hin'. destruct (get_reachable_correct d) as [l0 [H0 [Hs0 Hin0]]].
+  rewrite Hl in H0. inversion H0; subst l0.
+  apply strict_sorted_unique; auto. intros x. now rewrite Hin', Hin0.
+Qed.
